@@ -7,96 +7,8 @@ From Coq Require Import ZArith NArith List Bool.
 Import ListNotations.
 From V Require Import Model.Val Model.PyPrims Model.Reqif Gen.Consts_reqif Proofs.ReqifP.
 
-(* 0. _collect_objects, _build_spec_objects and create_hierarchy_folder are three separate recursions in
-      the source; all three visit exactly the depth-first list of requirements. *)
-Theorem traversals_are_dfs : forall xhtml f st,
-  spec_objects_of xhtml f = map (build_spec_object xhtml) (dfs f)
-  /\ hierarchy_of f = map hier_object (dfs f)
-  /\ collect_folder f st = fold_left collect_requirement (dfs f) st.
-Proof. intros. split; [apply spec_objects_dfs|split; [apply hierarchy_dfs|apply collect_dfs]]. Qed.
-Print Assumptions traversals_are_dfs.
-
-(* 1. coverage and order: SPEC-OBJECTS and the SPEC-HIERARCHY object references are, in this order,
-      the identifiers of the module's requirements in depth-first order. *)
-Theorem coverage : forall xhtml m q, export xhtml m = Ok q ->
-  map so_id (q_objs q) = map req_id (dfs (m_root m))
-  /\ map h_ref (q_hier q) = map req_id (dfs (m_root m))
-  /\ map h_id (q_hier q) = map (fun r => T_hier_id (req_id r)) (dfs (m_root m)).
-Proof. intros. split; [eapply coverage_objs; eauto|eapply coverage_hier; eauto]. Qed.
-Print Assumptions coverage.
-
-(* 1'. exactly once, in both places, when no two requirements share a uuid (up to case) *)
-Theorem exactly_once_each : forall xhtml m q r,
-  UniqueUuidsUp m -> export xhtml m = Ok q -> In r (dfs (m_root m)) ->
-  count_occ str_eq_dec (map so_id (q_objs q)) (req_id r) = 1%nat
-  /\ count_occ str_eq_dec (map h_ref (q_hier q)) (req_id r) = 1%nat.
-Proof. exact exactly_once. Qed.
-Print Assumptions exactly_once_each.
-
-(* 2. referential closure: the text of every *-REF element is the IDENTIFIER of an element of the
-      document.  Hypotheses: requirement uuids are distinct; a definition uuid names one definition; a
-      data-type identifier names one set of enumeration values; enumeration attributes have an
-      enumeration definition with a data type and choose among its values.
-      (This is about the source as generated: with `NULLTYPE--…` in _ref_attribute_definition the
-      lemma attrref_none_is_decl, and with it this theorem, no longer checks.) *)
-Theorem refs_closed : forall xhtml m q,
-  UniqueReqs m -> DefsConsistent m -> DatatypesConsistent m -> EnumDeclared m ->
-  export xhtml m = Ok q -> incl (references q) (identifiers q).
-Proof. exact refs_closed_lemma. Qed.
-Print Assumptions refs_closed.
-
-(* 3. values: each spec object carries, in order, ForeignID = identifier (string), ChapterName, Name,
-      Text (whatever lxml makes of the field, or of "<div></div>" when empty) and then one value per
-      attribute, in attribute order; LONG-NAME and the type reference are the requirement's. *)
-Theorem values_intact : forall xhtml m q, export xhtml m = Ok q ->
-  Forall2 (intact xhtml) (dfs (m_root m)) (q_objs q).
-Proof. exact values_intact_full. Qed.
-Print Assumptions values_intact.
-
-Theorem enum_choices : forall a vs, at_val a = PEnum vs ->
-  build_attr_value a = VEnumV (attr_defref KEnum (at_def a)) (map (fun v => T_enumvalue_ref (up v)) vs).
-Proof. exact enum_choices_intact. Qed.
-Print Assumptions enum_choices.
-
-(* 4. uniqueness — PARTIAL.  Proved: the SPEC-OBJECT identifiers, the hierarchy object references and the
-      SPEC-HIERARCHY identifiers are each duplicate-free.  Not proved as a theorem: NoDup of ALL
-      identifiers of the document (data types, enumeration values, spec types and their attribute
-      definitions, across classes); that part is checked on every exported document by the oracle.
-      The full statement is FALSE for the code as it is — see ids_unique_refuted. *)
-Theorem ids_unique_partial : forall xhtml m q, UniqueUuidsUp m -> export xhtml m = Ok q ->
-  NoDup (map so_id (q_objs q)) /\ NoDup (map h_ref (q_hier q)) /\ NoDup (map h_id (q_hier q)).
-Proof. exact objs_nodup. Qed.
-Print Assumptions ids_unique_partial.
-
-(* 4'. the data types generated from attribute definitions are duplicate-free (the visited_types set), and
-       so are the five standard data types *)
-Theorem datatype_ids_unique : forall xhtml m q, export xhtml m = Ok q ->
-  exists dts, q_datatypes q = std_datatypes ++ dts /\ NoDup (map dd_id dts) /\ has_dup (map dd_id std_datatypes) = false.
-Proof. exact datatypes_nodup. Qed.
-Print Assumptions datatype_ids_unique.
-
-(* 5. compressed export: the archive holds one member, ARCHIVE_MEMBER, with the bytes of the plain export
-      (zipfile as any pair with unzip (zip ms) = ms); compression happens only for compress=None and a
-      path ending in ".reqifz". *)
-Theorem compressed_same : forall (zip : list (str * str) -> str) (unzip : str -> option (list (str * str))),
-  (forall ms, unzip (zip ms) = Some ms) -> forall doc,
-  unzip (write_container zip true doc) = Some [(ARCHIVE_MEMBER, doc)] /\ write_container zip false doc = doc.
-Proof. exact compressed_same_lemma. Qed.
-Print Assumptions compressed_same.
-Theorem compress_decision : forall c p name,
-  decide_compress c p name = true <-> c = None /\ p = true /\ ends_with name COMPRESS_SUFFIX = true.
-Proof. exact decide_compress_spec. Qed.
-Print Assumptions compress_decision.
-
-(* 6. well-formed output exists — PARTIAL (guarded).  The export produces a document whenever every
-      definition in use is complete for its use (an enumeration attribute has an enumeration definition
-      with a data type) and lxml can parse every XHTML-typed field.  Without the guards the statement
-      is false: export_total_refuted. *)
-Theorem export_total_partial : forall xhtml m, DefsComplete m -> FieldsParse xhtml m -> exists q, export xhtml m = Ok q.
-Proof. exact export_total_lemma. Qed.
-Print Assumptions export_total_partial.
-
-(* ---------- witnesses ---------- *)
+(* ---------- witnesses (used by hyps_satisfiable and the [*_hyps_sat] examples: one concrete instance
+   meeting ALL hypotheses of the theorem above it, jointly) ---------- *)
 Definition xh : str -> result str := fun s => Ok s.
 Definition u (n : N) : str := [97; 48 + n]%N.                       (* "a0", "a1", … *)
 Definition e_dt : dtype := mkDt (u 7) [u 8; u 9].
@@ -130,6 +42,186 @@ Proof.
   - simpl in H. repeat match goal with H : _ \/ _ |- _ => destruct H end; subst; try contradiction;
       eexists; vm_compute; reflexivity.
   - eexists. split. vm_compute. reflexivity. reflexivity.
+Qed.
+
+(* a second module: two requirements of the same type in nested folders, a typed module, and two
+   DIFFERENT enumeration definitions (a6, a4) sharing the data type a7, so that the premise of
+   DatatypesConsistent holds for two distinct keys *)
+Definition e_def2 : adef := mkAd (u 4) true false (Some e_dt).
+Definition m_ok2 : module :=
+  mkMod (u 0) (u 1) (Some (u 5)) [77]%N
+    (Folder [mkReq (u 2) (Some (u 5)) [76]%N [73]%N [67]%N [78]%N [84]%N
+                   [mkAt (Some e_def) (PEnum [u 8; u 9]); mkAt None (PStr [120]%N)]]
+            [Folder [mkReq (u 3) (Some (u 5)) [] [] [] [] []
+                           [mkAt (Some e_def2) (PEnum [u 8]); mkAt None (PDate None)]] []]).
+(* an lxml stand-in that rejects some documents (those containing a NUL character) *)
+Definition xh_partial : str -> result str :=
+  fun s => if existsb (N.eqb 0) s then Err E_ValueError else Ok (s ++ [10]%N).
+
+
+(* 0. _collect_objects, _build_spec_objects and create_hierarchy_folder are three separate recursions in
+      the source; all three visit exactly the depth-first list of requirements. *)
+Theorem traversals_are_dfs : forall xhtml f st,
+  spec_objects_of xhtml f = map (build_spec_object xhtml) (dfs f)
+  /\ hierarchy_of f = map hier_object (dfs f)
+  /\ collect_folder f st = fold_left collect_requirement (dfs f) st.
+Proof. intros. split; [apply spec_objects_dfs|split; [apply hierarchy_dfs|apply collect_dfs]]. Qed.
+Print Assumptions traversals_are_dfs.
+(* no hypotheses *)
+
+(* 1. coverage and order: SPEC-OBJECTS and the SPEC-HIERARCHY object references are, in this order,
+      the identifiers of the module's requirements in depth-first order. *)
+Theorem coverage : forall xhtml m q, export xhtml m = Ok q ->
+  map so_id (q_objs q) = map req_id (dfs (m_root m))
+  /\ map h_ref (q_hier q) = map req_id (dfs (m_root m))
+  /\ map h_id (q_hier q) = map (fun r => T_hier_id (req_id r)) (dfs (m_root m)).
+Proof. intros. split; [eapply coverage_objs; eauto|eapply coverage_hier; eauto]. Qed.
+Print Assumptions coverage.
+Example coverage_hyps_sat : exists q, export xh m_ok = Ok q /\ length (dfs (m_root m_ok)) = 2%nat.
+Proof. destruct hyps_satisfiable as (_ & _ & _ & _ & _ & _ & _ & q & E & _). exists q. split; [exact E|reflexivity]. Qed.
+
+(* 1'. exactly once, in both places, when no two requirements share a uuid (up to case) *)
+Theorem exactly_once_each : forall xhtml m q r,
+  UniqueUuidsUp m -> export xhtml m = Ok q -> In r (dfs (m_root m)) ->
+  count_occ str_eq_dec (map so_id (q_objs q)) (req_id r) = 1%nat
+  /\ count_occ str_eq_dec (map h_ref (q_hier q)) (req_id r) = 1%nat.
+Proof. exact exactly_once. Qed.
+Print Assumptions exactly_once_each.
+(* r = the requirement a3 in the innermost folder of m_ok *)
+Example exactly_once_each_hyps_sat :
+  UniqueUuidsUp m_ok /\ (exists q, export xh m_ok = Ok q)
+  /\ In (mkReq (u 3) None [] [] [] [] [] [mkAt None (PInt (-42))]) (dfs (m_root m_ok)).
+Proof.
+  destruct hyps_satisfiable as (_ & U & _ & _ & _ & _ & _ & q & E & _).
+  split; [exact U|]. split; [exists q; exact E|]. simpl. right. left. reflexivity.
+Qed.
+
+(* 2. referential closure: the text of every *-REF element is the IDENTIFIER of an element of the
+      document.  Hypotheses: requirement uuids are distinct; a definition uuid names one definition; a
+      data-type identifier names one set of enumeration values; enumeration attributes have an
+      enumeration definition with a data type and choose among its values.
+      (This is about the source as generated: with `NULLTYPE--…` in _ref_attribute_definition the
+      lemma attrref_none_is_decl, and with it this theorem, no longer checks.) *)
+Theorem refs_closed : forall xhtml m q,
+  UniqueReqs m -> DefsConsistent m -> DatatypesConsistent m -> EnumDeclared m ->
+  export xhtml m = Ok q -> incl (references q) (identifiers q).
+Proof. exact refs_closed_lemma. Qed.
+Print Assumptions refs_closed.
+(* m_ok: see hyps_satisfiable above.  m_ok2: two distinct attribute keys map to the same data-type
+   identifier, so DatatypesConsistent is met with a non-trivial premise. *)
+Example refs_closed_hyps_sat_2 :
+  UniqueReqs m_ok2 /\ DefsConsistent m_ok2 /\ DatatypesConsistent m_ok2 /\ EnumDeclared m_ok2
+  /\ (exists q, export xh m_ok2 = Ok q /\ length (q_objs q) = 2%nat)
+  /\ (exists k k', In k (all_keys m_ok2) /\ In k' (all_keys m_ok2) /\ k <> k' /\ key_dtid k = key_dtid k').
+Proof.
+  split; [|split; [|split; [|split; [|split]]]].
+  - unfold UniqueReqs. simpl. repeat constructor; simpl; intuition discriminate.
+  - intros k k' Hk Hk' E. simpl in Hk, Hk'.
+    repeat match goal with H : _ \/ _ |- _ => destruct H end; subst; try reflexivity; try contradiction;
+      vm_compute in E; discriminate.
+  - intros k k' Hk Hk' E. simpl in Hk, Hk'.
+    repeat match goal with H : _ \/ _ |- _ => destruct H end; subst; try reflexivity; try contradiction;
+      vm_compute in E; discriminate.
+  - intros r a vs Hr Ha Hv. simpl in Hr.
+    repeat match goal with H : _ \/ _ |- _ => destruct H end; subst; try contradiction; simpl in Ha;
+      repeat match goal with H : _ \/ _ |- _ => destruct H end; subst; try contradiction; try discriminate.
+    all: inversion Hv; subst; eexists; eexists; repeat split; intros x Hx; simpl in Hx |- *; intuition.
+  - eexists. split. vm_compute. reflexivity. reflexivity.
+  - exists (Some e_def, KEnum), (Some e_def2, KEnum). repeat split.
+    + simpl. auto.
+    + simpl. auto.
+    + discriminate.
+Qed.
+
+(* 3. values: each spec object carries, in order, ForeignID = identifier (string), ChapterName, Name,
+      Text (whatever lxml makes of the field, or of "<div></div>" when empty) and then one value per
+      attribute, in attribute order; LONG-NAME and the type reference are the requirement's. *)
+Theorem values_intact : forall xhtml m q, export xhtml m = Ok q ->
+  Forall2 (intact xhtml) (dfs (m_root m)) (q_objs q).
+Proof. exact values_intact_full. Qed.
+Print Assumptions values_intact.
+Example values_intact_hyps_sat : exists q, export xh m_ok = Ok q.
+Proof. destruct hyps_satisfiable as (_ & _ & _ & _ & _ & _ & _ & q & E & _). exists q. exact E. Qed.
+
+(* by definition of build_attr_value (its PEnum branch) *)
+Theorem enum_choices : forall a vs, at_val a = PEnum vs ->
+  build_attr_value a = VEnumV (attr_defref KEnum (at_def a)) (map (fun v => T_enumvalue_ref (up v)) vs).
+Proof. exact enum_choices_intact. Qed.
+Print Assumptions enum_choices.
+Example enum_choices_hyps_sat : at_val (mkAt (Some e_def) (PEnum [u 8; u 9])) = PEnum [u 8; u 9].
+Proof. reflexivity. Qed.
+
+(* 4. uniqueness — PARTIAL.  Proved: the SPEC-OBJECT identifiers, the hierarchy object references and the
+      SPEC-HIERARCHY identifiers are each duplicate-free.  Not proved as a theorem: NoDup of ALL
+      identifiers of the document (data types, enumeration values, spec types and their attribute
+      definitions, across classes); that part is checked on every exported document by the oracle.
+      The full statement is FALSE for the code as it is — see ids_unique_refuted. *)
+Theorem ids_unique_partial : forall xhtml m q, UniqueUuidsUp m -> export xhtml m = Ok q ->
+  NoDup (map so_id (q_objs q)) /\ NoDup (map h_ref (q_hier q)) /\ NoDup (map h_id (q_hier q)).
+Proof. exact objs_nodup. Qed.
+Print Assumptions ids_unique_partial.
+Example ids_unique_partial_hyps_sat : UniqueUuidsUp m_ok /\ exists q, export xh m_ok = Ok q.
+Proof. destruct hyps_satisfiable as (_ & U & _ & _ & _ & _ & _ & q & E & _). split; [exact U|exists q; exact E]. Qed.
+
+(* 4'. the data types generated from attribute definitions are duplicate-free (the visited_types set), and
+       so are the five standard data types *)
+Theorem datatype_ids_unique : forall xhtml m q, export xhtml m = Ok q ->
+  exists dts, q_datatypes q = std_datatypes ++ dts /\ NoDup (map dd_id dts) /\ has_dup (map dd_id std_datatypes) = false.
+Proof. exact datatypes_nodup. Qed.
+Print Assumptions datatype_ids_unique.
+(* on m_ok2 the generated part [dts] is not empty: 3 data types for 4 attribute keys (the two
+   enumeration definitions share one) *)
+Example datatype_ids_unique_hyps_sat :
+  exists q, export xh m_ok2 = Ok q /\ length (q_datatypes q) = (length std_datatypes + 3)%nat.
+Proof. eexists. split; [vm_compute; reflexivity|reflexivity]. Qed.
+
+(* 5. compressed export: the archive holds one member, ARCHIVE_MEMBER, with the bytes of the plain export
+      (zipfile as any pair with unzip (zip ms) = ms); compression happens only for compress=None and a
+      path ending in ".reqifz". *)
+(* by definition of write_container, plus the hypothesis instantiated at the one-member archive *)
+Theorem compressed_same : forall (zip : list (str * str) -> str) (unzip : str -> option (list (str * str))),
+  (forall ms, unzip (zip ms) = Some ms) -> forall doc,
+  unzip (write_container zip true doc) = Some [(ARCHIVE_MEMBER, doc)] /\ write_container zip false doc = doc.
+Proof. exact compressed_same_lemma. Qed.
+Print Assumptions compressed_same.
+(* a concrete length-prefixed archive format (Proofs/ReqifP.v, ex_zip / ex_unzip) meets the section
+   hypothesis *)
+Example compressed_same_hyps_sat :
+  (forall ms, ex_unzip (ex_zip ms) = Some ms)
+  /\ ex_unzip (write_container ex_zip true [1;2;3]%N) = Some [(ARCHIVE_MEMBER, [1;2;3]%N)]
+  /\ ex_zip [([7]%N, [8;9]%N); ([]%N, [5]%N)] = [1;7;2;8;9;0;1;5]%N.
+Proof. split; [exact ex_unzip_zip|split; vm_compute; reflexivity]. Qed.
+(* by definition of decide_compress (case analysis on its three arguments) *)
+Theorem compress_decision : forall c p name,
+  decide_compress c p name = true <-> c = None /\ p = true /\ ends_with name COMPRESS_SUFFIX = true.
+Proof. exact decide_compress_spec. Qed.
+Print Assumptions compress_decision.
+(* no hypotheses (an equivalence); both sides are inhabited, and both can fail *)
+Example compress_decision_hyps_sat :
+  decide_compress None true ([120]%N ++ COMPRESS_SUFFIX) = true
+  /\ decide_compress None true [120;46;114;101;113;105;102]%N = false
+  /\ decide_compress (Some true) true ([120]%N ++ COMPRESS_SUFFIX) = false.
+Proof. repeat split. Qed.
+
+(* 6. well-formed output exists — PARTIAL (guarded).  The export produces a document whenever every
+      definition in use is complete for its use (an enumeration attribute has an enumeration definition
+      with a data type) and lxml can parse every XHTML-typed field.  Without the guards the statement
+      is false: export_total_refuted. *)
+Theorem export_total_partial : forall xhtml m, DefsComplete m -> FieldsParse xhtml m -> exists q, export xhtml m = Ok q.
+Proof. exact export_total_lemma. Qed.
+Print Assumptions export_total_partial.
+(* m_ok with the total parser: see hyps_satisfiable.  Here with a parser that rejects some inputs
+   (so that FieldsParse is a real restriction), on the typed module m_ok2. *)
+Example export_total_partial_hyps_sat :
+  DefsComplete m_ok2 /\ FieldsParse xh_partial m_ok2
+  /\ xh_partial [60;0;62]%N = Err E_ValueError.
+Proof.
+  split; [|split; [split|reflexivity]].
+  - intros k H. simpl in H. repeat match goal with H : _ \/ _ |- _ => destruct H end; subst; try contradiction;
+      split; eexists; vm_compute; reflexivity.
+  - intros r H. simpl in H. repeat match goal with H : _ \/ _ |- _ => destruct H end; subst; try contradiction;
+      repeat split; eexists; vm_compute; reflexivity.
+  - eexists. vm_compute. reflexivity.
 Qed.
 
 (* REFUTED: all identifiers unique.  A typed and an untyped requirement, each with a Boolean attribute
